@@ -53,7 +53,8 @@ func (e Event) String() string {
 	return fmt.Sprintf("%s#%d text=%q pos=%d:%d(%d) labels{%s} state{%s} global{%s}", e.Kind, e.ID, e.Text, e.Line, e.Col, e.Off, e.Labels, e.State, e.Global)
 }
 
-// Fault makes the Nth (1-based) invocation of block ID misbehave.
+// Fault makes the Nth (1-based) invocation of block ID misbehave (Nth 0 = every invocation,
+// which keeps the block a pure function of its arguments).
 type Fault struct {
 	ID   int    `json:"id"`
 	Nth  int    `json:"nth"`
@@ -129,7 +130,7 @@ func (c *Ctx) fault(id int) (*Fault, int) {
 	}
 	for i := range c.Plan.Faults {
 		f := &c.Plan.Faults[i]
-		if f.ID == id && f.Nth == n {
+		if f.ID == id && (f.Nth == n || f.Nth == 0) {
 			return f, n
 		}
 	}
